@@ -4,8 +4,10 @@ open Lean ParamVerif ParamVerif.Proto ParamVerif.Dispatch
 
 def parseWatcher (j : Json) : Except String Watcher := do
   let ps ← (← getArr j "params").toList.mapM (·.getNat?)
-  return { id := ← getNat j "id", params := ps, onlychanged := ← getBool j "onlychanged",
-           queued := ← getBool j "queued", precedence := ← getInt j "precedence", body := ← getNat j "body" }
+  let id ← getNat j "id"
+  return { id := id, params := ps, onlychanged := ← getBool j "onlychanged",
+           queued := ← getBool j "queued", precedence := ← getInt j "precedence", body := ← getNat j "body",
+           cb := (getNat j "cb").toOption.getD id }
 
 def parseKvs (j : Json) : Except String (List (Nat × Int)) := do
   (← j.getArr?).toList.mapM fun p => do
@@ -24,11 +26,13 @@ partial def parseStmt (j : Json) : Except String Stmt := do
   | "watch" => return .watch (← parseWatcher (← j.getObjVal? "w"))
   | "unwatch" => return .unwatch (← getNat j "id")
   | "raise" => return .raise
+  | "raiseBase" => return .raiseBase
   | "try" => return .try_ (← body "body")
   | s => throw s!"unknown stmt {s}"
 
 def jRes : Res → Json
-  | .ok => "ok" | .raised .value => "ValueError" | .raised .boom => "Boom" | .oof => "oof"
+  | .ok => "ok" | .raised .value => "ValueError" | .raised .boom => "Boom" | .raised .base => "BoomBase"
+  | .raised .key => "KeyError" | .oof => "oof"
 def jType : EvType → Json
   | .set => "set" | .changed => "changed" | .triggered => "triggered"
 def jInts (l : List Int) : Json := Json.arr (l.map toJson).toArray
@@ -51,6 +55,7 @@ partial def parseItem (j : Json) : Except String Item := do
   let ch ← (← getArr j "ch").toList.mapM parseItem
   let res ← match ← getStr j "res" with
     | "ok" => pure Res.ok | "ValueError" => pure (Res.raised .value) | "Boom" => pure (Res.raised .boom)
+    | "BoomBase" => pure (Res.raised .base) | "KeyError" => pure (Res.raised .key)
     | "oof" => pure Res.oof | s => throw s!"res {s}"
   match ← getStr j "t" with
   | "call" =>
